@@ -135,6 +135,17 @@ theorem frame_step {P : Prog} {v v' : SV} {evs : List Tr} {q : Nat} {K : List In
 theorem nq_mono {P : Prog} {v v' : SV} {evs : List Tr} (hs : SStepE P v evs v') : v.nq ≤ v'.nq := by
   rcases sstepE_markers_sub hs with ⟨_, h⟩ | ⟨_, h⟩ <;> omega
 
+/-- once activation `q` is gone it never comes back (new levels get new numbers) -/
+theorem frame_gone_step {P : Prog} {v v' : SV} {evs : List Tr} {q : Nat} (hq : q < v.nq)
+    (hq' : q ∉ markersA v.code) (hs : SStepE P v evs v') : q ∉ markersA v'.code := by
+  rcases sstepE_markers_sub hs with ⟨h, _⟩ | ⟨h, _⟩
+  · exact fun hm => hq' (h.subset hm)
+  · rw [h]
+    intro hm
+    rcases List.mem_cons.1 hm with h1 | h1
+    · omega
+    · exact hq' h1
+
 theorem frameInv_step {P : Prog} {v v' : SV} {evs : List Tr} {q : Nat} {K : List Instr} (hb : Basic v)
     (hq : q < v.nq) (hi : FrameInv q K v) (hs : SStepE P v evs v') : FrameInv q K v' := by
   rcases hi with hX | hq'
